@@ -80,6 +80,9 @@ struct RunSpec {
     monotone: bool,
     /// per thread: (base register, source register, offset field)
     regs: Vec<(u8, u8, i16)>,
+    /// per thread: how the engine reaches the word: 0 = registered allowed memory (no-data VM),
+    /// 1 = the packet slice covers the buffer (raw VM), 2 = the metadata buffer IS the buffer
+    paths: Vec<u8>,
 }
 
 struct RunOut {
@@ -112,14 +115,23 @@ fn execute_run(spec: &RunSpec, buf: &GuardBuf) -> RunOut {
             let engine = spec.engines[t];
             hs.push(s.spawn(move || {
                 OBS.with(|o| o.borrow_mut().clear());
-                // interpreter: the word is reached through registered allowed memory (no-data VM);
-                // JIT: raw address; Cranelift: the packet slice covers the buffer
-                let kind = if engine == Engine::Cranelift { Kind::Raw } else { Kind::NoData };
+                // how this execution reaches the word (see RunSpec::paths); the JIT performs no
+                // bounds checks, Cranelift needs the packet or the metadata buffer to cover it
+                let path = if engine == Engine::Cranelift && spec.paths[t] == 0 { 1 } else { spec.paths[t] };
+                let kind = match path {
+                    0 => Kind::NoData,
+                    1 => Kind::Raw,
+                    _ => Kind::Mbuff,
+                };
                 let mut vm = Vm::new(kind, Some(prog), (0, 8)).expect("vm");
                 vm.register_helper(1, observer).unwrap();
                 let mut ok = true;
                 match engine {
-                    Engine::Interp => vm.register_allowed(word..word + spec.width as u64),
+                    Engine::Interp => {
+                        if path == 0 {
+                            vm.register_allowed(word..word + spec.width as u64)
+                        }
+                    }
                     Engine::Jit => ok &= vm.jit_compile().is_ok(),
                     #[cfg(feature = "std")]
                     Engine::Cranelift => ok &= vm.cl_compile().is_ok(),
@@ -127,18 +139,23 @@ fn execute_run(spec: &RunSpec, buf: &GuardBuf) -> RunOut {
                     Engine::Cranelift => ok = false,
                 }
                 barrier.wait();
-                let mem = (buf_ptr as *mut u8, buf_len);
+                let shared = (buf_ptr as *mut u8, buf_len);
+                let none = (std::ptr::null_mut(), 0usize);
+                let (mem, mb) = match path {
+                    0 => (none, none),
+                    1 => (shared, none),
+                    _ => (none, shared),
+                };
                 let r = unsafe {
                     match engine {
-                        Engine::Interp => vm.exec((std::ptr::null_mut(), 0), (std::ptr::null_mut(), 0)),
-                        Engine::Jit => vm.exec_jit((std::ptr::null_mut(), 0), (std::ptr::null_mut(), 0)),
+                        Engine::Interp => vm.exec(mem, mb),
+                        Engine::Jit => vm.exec_jit(mem, mb),
                         #[cfg(feature = "std")]
-                        Engine::Cranelift => vm.exec_cl(mem, (std::ptr::null_mut(), 0)),
+                        Engine::Cranelift => vm.exec_cl(mem, mb),
                         #[cfg(not(feature = "std"))]
                         Engine::Cranelift => Err("n/a".into()),
                     }
                 };
-                let _ = mem;
                 ok &= matches!(r, Ok(0));
                 (ok, OBS.with(|o| std::mem::take(&mut *o.borrow_mut())))
             }));
@@ -264,7 +281,11 @@ fn gen_spec(rng: &mut Rng, q: bool, engines_avail: &[Engine], small: bool) -> Ru
     let same = rng.chance(1, 2);
     let first = pick(rng);
     let regs: Vec<(u8, u8, i16)> = (0..nthreads).map(|_| if same { first } else { pick(rng) }).collect();
-    RunSpec { width, nthreads, iters, init: if width == 4 { init & 0xffff_ffff } else { init }, addends, engines, monotone, regs }
+    {
+        let pstyle = rng.below(4);
+        let paths: Vec<u8> = (0..nthreads).map(|_| if pstyle < 3 { pstyle as u8 } else { rng.below(3) as u8 }).collect();
+        RunSpec { width, nthreads, iters, init: if width == 4 { init & 0xffff_ffff } else { init }, addends, engines, monotone, regs, paths }
+    }
 }
 
 pub fn run(a: &Args, rep: &mut Report) {
@@ -370,7 +391,7 @@ pub fn run(a: &Args, rep: &mut Report) {
             s.iters /= 2;
         }
         rep.case(Some(crate::util::fnv(format!("{s:?}").as_bytes())));
-        let w = json!({"kind": "xadd-run", "width": s.width, "threads": s.nthreads, "iters": s.iters, "init": format!("{:#x}", s.init), "addends": s.addends.iter().map(|a| format!("{a:#x}")).collect::<Vec<_>>(), "engines": s.engines.iter().map(|e| e.name()).collect::<Vec<_>>(), "base_src_off": s.regs.iter().map(|r| format!("{:?}", r)).collect::<Vec<_>>(), "prog": hex(&worker_prog(buf.addr() + 16, s.width, s.addends[0], s.iters, true))});
+        let w = json!({"kind": "xadd-run", "width": s.width, "threads": s.nthreads, "iters": s.iters, "init": format!("{:#x}", s.init), "addends": s.addends.iter().map(|a| format!("{a:#x}")).collect::<Vec<_>>(), "engines": s.engines.iter().map(|e| e.name()).collect::<Vec<_>>(), "paths": s.paths, "base_src_off": s.regs.iter().map(|r| format!("{:?}", r)).collect::<Vec<_>>(), "prog": hex(&worker_prog(buf.addr() + 16, s.width, s.addends[0], s.iters, true))});
         let mixname = {
             let mut e: Vec<&str> = s.engines.iter().map(|e| e.name()).collect();
             e.sort();
@@ -379,6 +400,9 @@ pub fn run(a: &Args, rep: &mut Report) {
         };
         rep.set("engine_mixes", mixname.clone());
         rep.set("thread_counts", format!("{}", s.nthreads));
+        for p in &s.paths {
+            rep.set("access_paths", ["allowed-memory", "packet", "metadata-buffer"][*p as usize]);
+        }
         for r in &s.regs {
             rep.set("base_registers", format!("r{}", r.0));
             rep.set("offset_fields", format!("{}", r.2));
